@@ -772,3 +772,192 @@ Proof.
   cbv zeta. split; [repeat constructor; cbn; lia|]. split; [repeat constructor; cbn; lia|].
   split; [unfold size_ok; cbn; lia|]. vm_compute. repeat split.
 Qed.
+
+(** ** The multi-file reader: seeking (C20_two_files, seek part) *)
+
+Definition file_ok (me : Z) (f : qfile) : Prop :=
+  lines_ok me f /\ stamps_nonzero f /\ size_ok f /\ f <> [].
+
+Definition all_newer (ts : Z) (f : qfile) : Prop := forall k l t, nth_error f k = Some (l, t) -> ts < t.
+Definition all_older (ts : Z) (f : qfile) : Prop := forall k l t, nth_error f k = Some (l, t) -> t < ts.
+
+Lemma files_set_state r i s f s0 :
+  nth_error (r_files r) i = Some (f, s0) ->
+  map fst (set_state r (Z.of_nat i) s) = files r.
+Proof.
+  intro H. unfold set_state, files. rewrite Nat2Z.id, (nth_file_nth_error _ _ _ H). cbn [fst].
+  eapply map_fst_set_nth; eauto.
+Qed.
+
+Lemma nth_files r i f : nth_error (files r) i = Some f -> exists s, nth_error (r_files r) i = Some (f, s).
+Proof.
+  unfold files. rewrite nth_error_map. destruct (nth_error (r_files r) i) as [[f' s]|]; cbn; [|discriminate].
+  intro H; injection H as <-. eauto.
+Qed.
+
+(** Files newer than the wanted stamp answer too-early and are passed over. *)
+Lemma reader_seek_loop_skip me ts : 0 < me ->
+  forall n r i, (i < n <= length (r_files r))%nat ->
+  Forall (file_ok me) (files r) ->
+  (forall j f, (i < j < n)%nat -> nth_error (files r) j = Some f -> all_newer ts f) ->
+  exists r', reader_seek_loop me n ts r = reader_seek_loop me (S i) ts r' /\
+             files r' = files r /\ r_cur r' = r_cur r /\ r_fellback r' = r_fellback r.
+Proof.
+  intros Hme. induction n as [|n IH]; intros r i Hn Hok Hnew; [lia|].
+  destruct (Nat.eq_dec n i) as [->|Hne]; [exists r; auto|].
+  destruct (nth_error (r_files r) n) as [[f s]|] eqn:E; [|apply nth_error_None in E; lia].
+  assert (Ef : nth_error (files r) n = Some f) by (unfold files; rewrite nth_error_map, E; reflexivity).
+  assert (Hfok : file_ok me f).
+  { rewrite Forall_forall in Hok. apply Hok. eapply nth_error_In; eauto. }
+  destruct Hfok as (H1 & H2 & H3 & H4).
+  cbn [reader_seek_loop]. rewrite (nth_file_nth_error _ _ _ E).
+  unfold seek_ts_state. rewrite (seek_too_early me f ts Hme H1 H2 H3 H4 (Hnew n f ltac:(lia) Ef)).
+  set (r2 := {| r_files := _; r_cur := _; r_fellback := _ |}).
+  assert (Hfiles : files r2 = files r) by (unfold r2, files at 1; cbn [r_files]; eapply files_set_state; eauto).
+  destruct (IH r2 i) as (r' & Hr' & Hf' & Hc' & Hb').
+  - unfold r2. cbn [r_files]. unfold set_state. rewrite set_nth_length. lia.
+  - rewrite Hfiles; auto.
+  - intros j f' Hj. rewrite Hfiles. apply Hnew. lia.
+  - exists r'. rewrite Hr'. repeat split; auto; congruence.
+Qed.
+
+(** The file holding the stamp is found; the reader stands on that line. *)
+Lemma reader_seek_loop_found me ts r i f t l : 0 < me ->
+  Forall (file_ok me) (files r) -> nth_error (files r) i = Some f ->
+  sorted_ts f -> nth_error f t = Some (l, ts) ->
+  exists r' s, reader_seek_loop me (S i) ts r = (RFound, r') /\ files r' = files r /\
+    r_cur r' = Z.of_nat i /\ r_fellback r' = r_fellback r /\
+    nth_error (r_files r') i = Some (f, s) /\ pos s = St f t + l.
+Proof.
+  intros Hme Hok Ef Hs Et. destruct (nth_files _ _ _ Ef) as [s0 E].
+  assert (Hfok : file_ok me f).
+  { rewrite Forall_forall in Hok. apply Hok. eapply nth_error_In; eauto. }
+  destruct Hfok as (H1 & H2 & H3 & H4).
+  cbn [reader_seek_loop]. rewrite (nth_file_nth_error _ _ _ E).
+  unfold seek_ts_state. destruct (seek_present me f t l ts Hme H1 H2 Hs H3 Et) as [d ->].
+  eexists; eexists. split; [reflexivity|]. cbn [r_files r_cur r_fellback].
+  split; [eapply files_set_state; eauto|]. split; [reflexivity|]. split; [reflexivity|].
+  split.
+  - unfold set_state. rewrite Nat2Z.id, (nth_file_nth_error _ _ _ E). cbn [fst].
+    eapply nth_error_set_nth_same; eauto.
+  - reflexivity.
+Qed.
+
+(** A stamp newer than the newest file: fall back to the newest end. *)
+Lemma reader_seek_loop_late me ts r n f : 0 < me ->
+  Forall (file_ok me) (files r) -> length (r_files r) = S n ->
+  nth_error (files r) n = Some f -> all_older ts f ->
+  exists r', reader_seek_loop me (S n) ts r = (RFellBack, r') /\ files r' = files r /\
+    r_cur r' = Z.of_nat n /\
+    exists s, nth_error (r_files r') n = Some (f, s) /\ pos s = Z.max 0 (fsize f - 1).
+Proof.
+  intros Hme Hok Hlen Ef Hold. destruct (nth_files _ _ _ Ef) as [s0 E].
+  assert (Hfok : file_ok me f).
+  { rewrite Forall_forall in Hok. apply Hok. eapply nth_error_In; eauto. }
+  destruct Hfok as (H1 & H2 & H3 & H4).
+  cbn [reader_seek_loop]. rewrite (nth_file_nth_error _ _ _ E).
+  unfold seek_ts_state. rewrite (seek_too_late me f ts Hme H1 H2 H3 H4 Hold).
+  set (r1 := {| r_files := set_state r (Z.of_nat n) _; r_cur := r_cur r; r_fellback := r_fellback r |}).
+  assert (E1 : nth_error (r_files r1) n = Some (f, {| pos := pos s0; buf_start := buf_start s0; buf_valid := false |})).
+  { unfold r1. cbn [r_files]. unfold set_state. rewrite Nat2Z.id, (nth_file_nth_error _ _ _ E). cbn [fst].
+    eapply nth_error_set_nth_same; eauto. }
+  assert (Hf1 : files r1 = files r) by (unfold r1, files at 1; cbn [r_files]; eapply files_set_state; eauto).
+  assert (Hl1 : length (r_files r1) = S n).
+  { unfold r1. cbn [r_files]. unfold set_state. rewrite set_nth_length. auto. }
+  rewrite reader_seek_start_nonempty by (intro Hx; rewrite Hx in Hl1; discriminate).
+  cbv zeta. rewrite Hl1. replace (Z.of_nat (S n) - 1) with (Z.of_nat n) by lia.
+  rewrite (nth_file_nth_error _ _ _ E1).
+  eexists. split; [reflexivity|]. cbn [r_files r_cur].
+  split; [rewrite <- Hf1; eapply files_set_state; eauto|]. split; [reflexivity|].
+  eexists. split.
+  - unfold set_state. rewrite Nat2Z.id, (nth_file_nth_error _ _ _ E1). cbn [fst].
+    eapply nth_error_set_nth_same; eauto.
+  - reflexivity.
+Qed.
+
+Lemma reader_read_next_spec me buf r i p g x rest : 0 < me <= buf ->
+  rinv me r i p g -> rexp r i p = x :: rest ->
+  exists r' i' p' g', reader_read_next me buf r = (Some x, r') /\
+    rinv me r' i' p' g' /\ rexp r' i' p' = rest /\ files r' = files r.
+Proof.
+  intros Hme Hinv Hexp.
+  pose proof Hinv as (Hc & (s & Hs & _) & _).
+  pose proof (nth_error_Some_length _ _ _ Hs) as Hlen.
+  pose proof (reader_read_loop_spec me buf Hme (S (length (r_files r))) r i p g Hinv ltac:(lia)) as H.
+  assert (Hrn : reader_read_next me buf r = reader_read_loop me buf (S (length (r_files r))) r).
+  { unfold reader_read_next. destruct (r_files r); [cbn in Hlen; lia|reflexivity]. }
+  rewrite Hrn. rewrite Hexp in H. exact H.
+Qed.
+
+(** Seeking a present stamp in file [i], line [t] (all newer files lie wholly
+    after it), then skipping the found line: what remains to be read is the
+    older part of that file and the older files. *)
+Theorem reader_seek_present me buf (fs : list qfile) i f t l ts :
+  0 < me <= buf -> Forall (file_ok me) fs ->
+  nth_error fs i = Some f -> sorted_ts f -> nth_error f t = Some (l, ts) ->
+  (forall j f', (i < j)%nat -> nth_error fs j = Some f' -> all_newer ts f') ->
+  exists r' r'' x, reader_seek_ts me ts (new_reader fs) = (RFound, r') /\
+    reader_read_next me buf r' = (Some x, r'') /\
+    forall fuel, (length (tagged i (firstn t f) ++ all_rev_upto i fs) < fuel)%nat ->
+      reader_read_all me buf fuel r'' = tagged i (firstn t f) ++ all_rev_upto i fs.
+Proof.
+  intros Hme Hok Ef Hs Et Hnew.
+  set (r0 := {| r_files := r_files (new_reader fs); r_cur := r_cur (new_reader fs); r_fellback := false |}).
+  assert (Hf0 : files r0 = fs).
+  { unfold files, r0. cbn [r_files new_reader]. rewrite map_map. cbn. apply map_id. }
+  assert (Hl0 : length (r_files r0) = length fs) by (unfold r0; cbn; apply map_length).
+  pose proof (nth_error_Some_length _ _ _ Ef) as Hi.
+  assert (Hst : reader_seek_ts me ts (new_reader fs) = reader_seek_loop me (length fs) ts r0).
+  { unfold reader_seek_ts. fold r0. change (r_files (new_reader fs)) with (r_files r0).
+    rewrite Hl0. destruct (r_files r0) eqn:E; [cbn in Hl0; lia|]. reflexivity. }
+  destruct (reader_seek_loop_skip me ts ltac:(lia) (length fs) r0 i ltac:(lia)
+              ltac:(rewrite Hf0; auto) ltac:(intros j f' Hj; rewrite Hf0; apply Hnew; lia))
+    as (r1 & Hr1 & Hf1 & _ & _).
+  destruct (reader_seek_loop_found me ts r1 i f t l ltac:(lia) ltac:(rewrite Hf1, Hf0; auto)
+              ltac:(rewrite Hf1, Hf0; auto) Hs Et) as (r' & s & Hr' & Hf' & Hc' & _ & Hn' & Hp').
+  assert (Hinv : rinv me r' i (firstn (S t) f) (skipn (S t) f)).
+  { split; [exact Hc'|]. split.
+    - exists s. rewrite firstn_skipn. split; auto. rewrite Hp'.
+      fold (St f (S t)). rewrite (St_succ _ _ _ _ Et).
+      assert (Hlf : lines_ok me f).
+      { rewrite Forall_forall in Hok. apply (Hok f). eapply nth_error_In; eauto. }
+      assert (0 <= St f t) by (apply (fsize_nonneg me); apply lines_ok_firstn; auto).
+      pose proof (nth_line_ok _ _ _ _ _ Hlf Et). lia.
+    - rewrite Hf', Hf1, Hf0. eapply Forall_impl; [|exact Hok]. intros a Ha. apply Ha. }
+  assert (Hexp : rexp r' i (firstn (S t) f) =
+                 (Z.of_nat i, St f t, l) :: (tagged i (firstn t f) ++ all_rev_upto i fs)).
+  { unfold rexp. rewrite Hf', Hf1, Hf0. rewrite (firstn_S_snoc f t (0, 0)) by (eapply nth_error_Some_length; eauto).
+    rewrite (nth_error_nth _ _ _ Et), tagged_snoc. reflexivity. }
+  destruct (reader_read_next_spec me buf r' i _ _ _ _ Hme Hinv Hexp) as (r'' & i' & p' & g' & Hn & Hinv' & Hexp' & _).
+  exists r', r'', (Z.of_nat i, St f t, l). split; [rewrite Hst, Hr1; exact Hr'|]. split; [exact Hn|].
+  intros fuel Hfuel. rewrite <- Hexp'. eapply reader_read_all_spec; eauto. rewrite Hexp'. exact Hfuel.
+Qed.
+
+(** Seeking a stamp newer than everything in the (non-empty) newest file:
+    the reader falls back to the newest end and everything is read. *)
+Theorem reader_seek_newer me buf (fs : list qfile) n f ts :
+  0 < me <= buf -> Forall (file_ok me) fs -> length fs = S n ->
+  nth_error fs n = Some f -> all_older ts f ->
+  exists r', reader_seek_ts me ts (new_reader fs) = (RFellBack, r') /\
+    forall fuel, (length (all_rev fs) < fuel)%nat -> reader_read_all me buf fuel r' = all_rev fs.
+Proof.
+  intros Hme Hok Hlen Ef Hold.
+  set (r0 := {| r_files := r_files (new_reader fs); r_cur := r_cur (new_reader fs); r_fellback := false |}).
+  assert (Hf0 : files r0 = fs).
+  { unfold files, r0. cbn [r_files new_reader]. rewrite map_map. cbn. apply map_id. }
+  assert (Hl0 : length (r_files r0) = S n) by (unfold r0; cbn; rewrite map_length; auto).
+  assert (Hst : reader_seek_ts me ts (new_reader fs) = reader_seek_loop me (S n) ts r0).
+  { unfold reader_seek_ts. fold r0. change (r_files (new_reader fs)) with (r_files r0).
+    rewrite Hl0. destruct (r_files r0) eqn:E; [cbn in Hl0; lia|]. reflexivity. }
+  destruct (reader_seek_loop_late me ts r0 n f ltac:(lia) ltac:(rewrite Hf0; auto) Hl0
+              ltac:(rewrite Hf0; auto) Hold) as (r1 & Hr1 & Hf1 & Hc1 & s & Hs & Hp).
+  set (r' := {| r_files := r_files r1; r_cur := r_cur r1; r_fellback := true |}).
+  exists r1. split; [rewrite Hst; exact Hr1|].
+  assert (Hinv : rinv me r1 n f []).
+  { split; [exact Hc1|]. split.
+    - exists s. rewrite app_nil_r. auto.
+    - rewrite Hf1, Hf0. eapply Forall_impl; [|exact Hok]. intros a Ha. apply Ha. }
+  assert (Hexp : rexp r1 n f = all_rev fs).
+  { unfold rexp, all_rev. rewrite Hf1, Hf0, Hlen. cbn [all_rev_upto]. rewrite (nth_error_nth _ _ _ Ef). reflexivity. }
+  intros fuel Hfuel. rewrite <- Hexp. eapply reader_read_all_spec; eauto. rewrite Hexp. exact Hfuel.
+Qed.
